@@ -86,7 +86,10 @@ def gen_prec(seed, shard, n):
         except Exception as ex:
             yield dict(info, k="nc", oc=type(ex).__name__, un=F3(U(0, 0)), uf=F3(U(float(fr), float(fd))), maxdec=abs(dec))
         # orbital elements to another equinox and back
-        i0, a0, l0 = rng.uniform(0.5, 170), rng.uniform(0, 360), rng.uniform(0, 360)
+        # any inclination, with emphasis on the branch limits: nearly polar orbits (the reduction can carry them across
+        # i = 90), nearly retrograde-flat and nearly flat ones
+        i0 = rng.choice([rng.uniform(0.5, 170), rng.uniform(0.5, 170), 90.0 + rng.uniform(-0.12, 0.12), 90.0, rng.uniform(170, 179), rng.uniform(1.0, 3.0)])
+        a0, l0 = rng.uniform(0, 360), rng.uniform(0, 360)
         i1, a1, ll1 = C.orbital_equinox2equinox(Epoch(j0), Epoch(j1), A(i0), A(a0), A(l0))
         i2, a2, ll2 = C.orbital_equinox2equinox(Epoch(j1), Epoch(j0), i1, a1, ll1)
         yield dict(info, k="el", i0=fx(i0), a0=fx(a0), l0=fx(l0), i1=fx(float(i1)), i2=fx(float(i2)), a2=fx(float(a2)),
